@@ -28,6 +28,27 @@ TEncBudgetOK(ev) ==
   /\ IF ev.budget >= ev.flen THEN ev.ok /\ ev.wrote = ev.flen
      ELSE ~ev.ok /\ ev.wrote <= ev.budget      \* (the encoder re-words the writer's error; only "an error" is required)
 
+\* ---- the exported byte helpers of utils.go -------------------------------------------------------------------
+BE(n, k) == [i \in 1 .. k |-> (n \div (256 ^ (k - i))) % 256]            \* big-endian bytes of a non-negative number
+Low(num, bits) == IF num >= 0 THEN num % (2 ^ bits) ELSE (num + 2147483647 + 1) % (2 ^ bits) \* low bits of a two's-complement int32
+Top32(num) == IF num >= 0 THEN num \div 16777216 ELSE 128 + (num + 2147483647 + 1) \div 16777216
+UtilOK(ev) ==
+  LET n == SegsLen(ev.val) IN
+  CASE ev.fn = "ws2" -> ev.ok /\ ev.ret = n + 2 /\ SegsEq(ev.out, <<[l |-> BE(n, 2)]>> \o ev.val)
+    [] ev.fn = "ws4" -> ev.ok /\ ev.ret = n + 4 /\ SegsEq(ev.out, <<[l |-> BE(n, 4)]>> \o ev.val)
+    [] ev.fn = "wb"  -> ev.ok /\ SegsEq(ev.out, <<[l |-> <<Low(ev.num, 8)>>]>>)
+    [] ev.fn = "w16" -> ev.ok /\ SegsEq(ev.out, <<[l |-> BE(Low(ev.num, 16), 2)]>>)
+    [] ev.fn = "w32" -> ev.ok /\ SegsEq(ev.out, <<[l |-> <<Top32(ev.num)>> \o BE(Low(ev.num, 24), 3)]>>)
+    [] OTHER -> ~ev.ok                                                      \* "-short": one byte of room missing => an error
+RUtilOK(ev) ==
+  LET in == MkIn(ev.in)  o == ev.off  left == in.len - o IN
+  /\ ~ev.panic
+  /\ ev.u8ok = (left >= 1) /\ (ev.u8ok => ev.u8 = At(in, o + 1))
+  /\ ev.u16ok = (left >= 2) /\ (ev.u16ok => ev.u16 = U16(in, o + 1))
+  /\ LET L == IF left >= 2 THEN U16(in, o + 1) ELSE 0 IN
+     /\ ev.sok = (left >= 2 /\ left - 2 >= L)
+     /\ ev.sok => (ev.n = L + 2 /\ SegsEq(ev.s, Slice(in, o + 2, L)))
+
 TDecOK(ev) ==
   LET in == MkIn(ev.in)  r == Parse(in) IN
   CASE Prop = "C03" -> ~ev.panic
@@ -64,7 +85,8 @@ FramesOK(segs, frames, k) ==
 
 EvOK(ev) == CASE ev.k = "tth_stream" -> FramesOK(ev.in, ev.frames, 1)
               [] ev.k = "tth_enc" -> TEncOK(ev) [] ev.k = "tth_dec" -> TDecOK(ev)
-              [] ev.k = "tth_encb" -> (Prop = "C06") => TEncBudgetOK(ev) [] OTHER -> TRUE
+              [] ev.k = "tth_encb" -> (Prop = "C06") => TEncBudgetOK(ev)
+              [] ev.k = "tth_util" -> UtilOK(ev) [] ev.k = "tth_rutil" -> RUtilOK(ev) [] OTHER -> TRUE
 TraceInit == l = 1
 TraceNext == /\ l <= Len(Trace) /\ l' = l + 1
              /\ LET ev == Trace[l] IN ~EvOK(ev) => ReportWhy("MISMATCH", l, ev.k \o "/" \o (IF "api" \in DOMAIN ev THEN ev.api ELSE "stream"))
